@@ -35,13 +35,20 @@ tear-down (a terminal hung up mid-session).  Oracle on the hosts file alone:
 running sessions have their marked lines, ended sessions (however main() ended)
 have none, every other line is untouched.  Model side: c04_log_total (helpers.log
 returns for every OSError / ValueError of its streams) - a theorem of C04, no new
-Coq here."""
+Coq here.
+Signals (section H-sig): the real firewall.main in a forked child, dispositions installed by the REAL setup_daemon, a real
+signal (SIGTERM / SIGINT / SIGHUP, signal.raise_signal) before every hosts-file primitive of the HOST updates and of the
+final rewrite x the answer of os.kill toward the client pid (delivered / ESRCH / EPERM / EINVAL - the latter two are what
+Windows answers CTRL_C_EVENT); oracle on the scratch directory once the session has ended: no marked line of the port,
+other lines as before, no hosts.<port>.tmp."""
 import builtins
 import errno
+import json
 import os
 import shutil
 import sys
 import threading
+import time
 
 PROP = "C14"
 RULE = ("contents x host maps x ports: hosts files built from comments, ordinary entries, blank/white-space lines, own-marker "
@@ -2118,6 +2125,238 @@ def run_main_log_sessions(ctx, fw, n):
 
 # ----------------------------------------------------------------------------
 
+# ----------------------------------------------------------------------------
+# H-sig: a REAL signal reaches the helper while it touches the hosts file (firewall.py:77-104 firewall_exit relays it to
+#    the client with os.kill(sshuttle_pid, ...)).  The real firewall.main runs in a forked child (signals are delivered
+#    to the main thread only), the REAL setup_daemon installs the dispositions (SIGTERM/SIGINT -> firewall_exit, SIGHUP
+#    ignored; its stdin/stdout are then replaced by the scripted channel), the session is preamble + >= 1 HOST line +
+#    end of input.  Before the k-th hosts-file primitive of the whole session (the ones Rec sees: stat, exists, link /
+#    copy, read, open/write/close of the temporary file, chown, chmod, rename - of every HOST update and of the final
+#    rewrite) signal.raise_signal(sig) is called; os.kill toward the client pid (and only that) is answered by the
+#    environment: delivered / ESRCH (client gone) / EPERM (other session, other console group) / EINVAL (what Windows
+#    answers CTRL_C_EVENT for a vanished process).  Oracle, from the property text ("when a session ends its marked
+#    lines, and only those, are gone"; the temporary file is the instance's own): whatever the signal, the primitive and
+#    the answer, once the session has ended (main returned, raised or the process exited) the hosts file has no line
+#    with this port's marker, every other line is as before and no hosts.<port>.tmp is left.
+
+SIG_CLIENT_PID = 3999999            # never signalled for real: os.kill toward it is answered by the environment
+SIG_ANSWERS = ["ok", "ESRCH", "EPERM", "EINVAL"]
+SIG_NAMES = ["SIGTERM", "SIGINT", "SIGHUP"]
+
+
+class _SigChannel:
+    """the scripted control channel of the helper in the child (its stdin) + what MainPatched's spy wants"""
+
+    def __init__(self, lines):
+        self.lines = list(lines)
+        self.stdout = _Sink()
+        self.maps_seen = []
+
+    def readline(self, *a):
+        return self.lines.pop(0) if self.lines else b""
+
+
+def sig_child(fw, w, port, hosts, signame, k, answer, wfd):
+    """in the forked child: the whole session; writes a JSON record to wfd and _exits"""
+    import signal
+    out = {"status": "?", "events": [], "starts": [], "kills": [], "fired": None}
+    try:
+        real_kill = os.kill
+
+        def kill(pid, sig):
+            if pid != SIG_CLIENT_PID:
+                return real_kill(pid, sig)
+            out["kills"].append(int(sig))
+            if answer == "ok":
+                return None
+            raise OSError(getattr(errno, answer), os.strerror(getattr(errno, answer)))
+        os.kill = kill
+
+        def gate(rec, idx, name):
+            if idx == k and out["fired"] is None:             # once: a primitive the handler aborted is not counted
+                out["fired"] = name
+                out["fired_in"] = out["starts"][-1][1] if out["starts"] else None
+                signal.raise_signal(getattr(signal, signame))     # the interpreter runs the installed handler here
+        rec = Rec(w, port, gate)
+        ch = _SigChannel([l.replace(b"%d\n" % os.getpid(), b"%d\n" % SIG_CLIENT_PID) if l.startswith(b"GO ") else l
+                          for l in preamble(0, port)] + [("HOST %s,%s\n" % (n, ip)).encode("ascii") for n, ip in hosts])
+        with Patched(fw, w), MainPatched(fw) as mp:
+            real_daemon = mp.old[0]
+
+            def daemon():
+                real_daemon()                 # the real one: signal dispositions, setsid (needs root)
+                return ch, ch.stdout
+            fw.setup_daemon = daemon
+            spy = fw.rewrite_etc_hosts
+
+            def spy2(hostmap, p):
+                out["starts"].append([len(rec.events), len(hostmap)])
+                return spy(hostmap, p)
+            fw.rewrite_etc_hosts = spy2
+            _tls.helper = ch
+            _tls.rec = rec
+            try:
+                fw.main("fake", False)
+                out["status"] = "return"
+            except SystemExit as e:
+                out["status"] = "exit:%r" % (e.code,)
+            except BaseException as e:        # noqa
+                out["status"] = "crash:%s:%s" % (type(e).__name__, str(e)[:80])
+            finally:
+                _tls.rec = None
+        out["events"] = rec.events
+        out["started"] = ch.stdout.data.endswith(b"STARTED\n")
+    except BaseException as e:                # noqa
+        out["status"] = "harness:%s:%s" % (type(e).__name__, str(e)[:200])
+    try:
+        os.write(wfd, json.dumps(out).encode())
+    finally:
+        os._exit(0)
+
+
+def run_sig_session(fw, content, lnk, port, hosts, signame, k, answer):
+    """-> (record of the child, snapshot before, snapshot after the session has ended)"""
+    import select
+    w = World(content, 0, 0, 0o644, None, lnk)
+    try:
+        snap0 = w.snapshot()
+        rfd, wfd = os.pipe()
+        sys.stdout.flush()
+        sys.stderr.flush()
+        pid = os.fork()
+        if pid == 0:
+            os.close(rfd)
+            try:
+                devnull = os.open(os.devnull, os.O_WRONLY)
+                os.dup2(devnull, 2)
+            except OSError:
+                pass
+            sig_child(fw, w, port, hosts, signame, k, answer, wfd)
+            os._exit(0)
+        os.close(wfd)
+        data = b""
+        t_end = time.time() + 30
+        while True:
+            r, _, _ = select.select([rfd], [], [], max(0.0, t_end - time.time()))
+            if not r:
+                os.kill(pid, 9)
+                break
+            chunk = os.read(rfd, 65536)
+            if not chunk:
+                break
+            data += chunk
+        os.close(rfd)
+        _, wst = os.waitpid(pid, 0)
+        if not data:
+            rec = {"status": "process ended, wait status %d" % wst, "events": [], "starts": [], "kills": [], "fired": None}
+        else:
+            rec = json.loads(data.decode())
+        return rec, snap0, w.snapshot()
+    finally:
+        w.close()
+
+
+def judge_sig_session(content, port, snap0, snap):
+    """the oracle on the scratch directory after the session has ended; -> list of what is wrong"""
+    bad = []
+    data = snap.get("hosts", (None,))[0]
+    if data is None:
+        return ["the hosts file is gone"]
+    mine = [l for l in spec_norm_lines(data) if marker(port) in l]
+    if mine:
+        bad.append("%d marked line(s) of the ended session still in the hosts file (%r)" % (len(mine), mine[0]))
+    if base_lines(data, [port]) != base_lines(content, [port]):
+        bad.append("lines that are not the session's were changed")
+    tmps = sorted(n for n in snap if n.startswith("tmp") or n.startswith("OTHER:"))
+    if tmps:
+        bad.append("%s left" % ", ".join("hosts.%s.tmp" % n[3:] if n.startswith("tmp") else n[6:] for n in tmps))
+    return bad
+
+
+def sig_where(rec, k):
+    """which rewrite the k-th primitive belongs to"""
+    if rec.get("fired") is None or rec.get("fired_in") is None:
+        return "outside the hosts-file rewrites"
+    return "the final hosts-file rewrite" if rec["fired_in"] == 0 else "a HOST update"
+
+
+def sig_what(rec, port, signame, k, answer, bad):
+    relay = {"ok": "was relayed to the client", "ESRCH": "could not be relayed, the client is gone (ESRCH)",
+             "EPERM": "could not be relayed, os.kill toward the client failed with EPERM",
+             "EINVAL": "could not be relayed, os.kill toward the client failed with EINVAL"}[answer]
+    return ("%s reached the firewall helper during %s (before primitive #%d '%s') and %s: the session ended (%s) with %s"
+            % (signame, sig_where(rec, k), k, (rec.get("fired") or "-").split(":")[0], relay, rec["status"], "; ".join(bad)))
+
+
+SIG_CONTENTS = [
+    b"127.0.0.1 localhost\n10.9.9.9 other.example   # sshuttle-firewall-12299 AUTOCREATED\n::1 ip6-localhost\n",
+    b"127.0.0.1 localhost",
+    b"# only a comment\r\n192.168.1.1\tgw gw.lan\r\n\r\n",
+]
+
+
+def run_main_signals(ctx, fw, budget):
+    """budget: number of sessions beyond the exhaustive first scenario"""
+    import random
+    if os.geteuid() != 0:
+        ctx.notes.append("H-sig skipped: the real setup_daemon needs root")
+        return
+    rng = random.Random("C14-sig-%d" % ctx.seed)
+    port = 12300
+    failures = []
+
+    def one(content, lnk, hosts, signame, k, answer):
+        rec, snap0, snap = run_sig_session(fw, content, lnk, port, hosts, signame, k, answer)
+        if rec["status"].startswith("harness:") or (k < 0 and not rec.get("started")):
+            raise RuntimeError("H-sig: the session did not run: %s" % rec["status"])
+        where = sig_where(rec, k) if k >= 0 else "no signal"
+        ctx.case(("sig", content, lnk, tuple(hosts), signame, k, answer), nontrivial=True)
+        ctx.count("H-sig session: %s, %s, relay answered %s" % (where, signame, answer))
+        if k >= 0 and rec.get("fired") is not None and signame != "SIGHUP" and len(rec["kills"]) != 1:
+            ctx.disagree("H-sig: the real handler did not run exactly once", (signame, k, answer), rec["kills"], "1 relay")
+        bad = judge_sig_session(content, port, snap0, snap)
+        if bad:
+            ctx.count("H-sig sessions that ended with marked lines / a temporary file left")
+            failures.append((sig_what(rec, port, signame, k, answer, bad),
+                             {"kind": "main-signal", "content_hex": hx(content), "link_ok": lnk, "port": port,
+                              "hosts": [list(h) for h in hosts], "signal": signame, "k": k, "answer": answer,
+                              "primitive": rec.get("fired"), "during": where, "status": rec["status"]}))
+        return rec
+
+    def hosts_for(n):
+        hm = gen_map(rng, n)
+        return sorted(hm.items())
+
+    # scenario 1, exhaustively: one HOST line, every primitive of the HOST update and of the final rewrite (+ one beyond)
+    scen = [(SIG_CONTENTS[0], True, [("build.internal", "10.1.2.3")])]
+    scen.append((SIG_CONTENTS[1 + rng.randrange(2)], rng.random() < 0.5, hosts_for(2)))
+    lens = []
+    for content, lnk, hosts in scen:
+        dry = one(content, lnk, hosts, "SIGTERM", -1, "ok")
+        if len(dry["starts"]) != len(hosts) + 1 or dry["starts"][-1][1] != 0:
+            raise RuntimeError("H-sig: expected %d rewrites ending with the empty map, saw %r" % (len(hosts) + 1, dry["starts"]))
+        lens.append(len(dry["events"]))
+        ctx.extra.setdefault("sig_primitives", []).append([e.split(":")[0] for e in dry["events"]])
+    content, lnk, hosts = scen[0]
+    for k in range(lens[0] + 1):
+        for signame in SIG_NAMES:
+            for answer in (SIG_ANSWERS if signame != "SIGHUP" else ["ok", "EINVAL"]):
+                one(content, lnk, hosts, signame, k, answer)
+    # further sessions: other file shapes, copy instead of link, two names; primitive, signal and answer drawn
+    for i in range(budget):
+        j = 1 if i % 2 == 0 else 0
+        content, lnk, hosts = scen[j]
+        if j == 0:
+            content, lnk = SIG_CONTENTS[rng.randrange(3)], False
+        one(content, lnk, hosts, rng.choice(SIG_NAMES[:2]), rng.randrange(lens[j] + 1), rng.choice(SIG_ANSWERS))
+    if failures:
+        # the final rewrite first (the session's last chance to remove its lines), then the smallest primitive index
+        failures.sort(key=lambda f: (f[1]["during"] != "the final hosts-file rewrite", f[1]["k"]))
+        what, rp = failures[0]
+        rp["failing_inputs_found"] = len(failures)
+        ctx.violation(what, rp)
+
+
 def correspondence(ctx):
     fw = load()
     rng = ctx.rng
@@ -2298,6 +2537,9 @@ def correspondence(ctx):
         # ---- H-log: the same through the real firewall.main with failing log streams (verbosity x operation x class x mode)
         run_main_log_sessions(ctx, fw, 5 if quick else 30)
 
+        # ---- H-sig: real signals at every hosts-file primitive of a whole session x the answer to the relay
+        run_main_signals(ctx, fw, 40 if quick else 1500)
+
         # ---- E: outside the model
         run_outside_model(ctx, fw)
         ctx.notes.append("restore_etc_hosts does nothing when this instance never added a host (firewall.py:72): marked lines left behind "
@@ -2430,6 +2672,19 @@ def replay(ctx, rp):
             w.close()
             print("hosts at crash:", got)
             return got not in (content, full)
+        if r.get("kind") == "main-signal":
+            content = b(r["content_hex"])
+            hosts = [tuple(h) for h in r["hosts"]]
+            rec, snap0, snap = run_sig_session(fw, content, r.get("link_ok", True), r["port"], hosts, r["signal"], r["k"], r["answer"])
+            bad = judge_sig_session(content, r["port"], snap0, snap)
+            print("hosts file before:", content)
+            print("HOST lines:", hosts, "| signal", r["signal"], "before primitive #%d" % r["k"], rec.get("fired"),
+                  "(%s)" % sig_where(rec, r["k"]), "| os.kill toward the client answers", r["answer"])
+            print("primitives of the session:", ",".join(e.split(":")[0] for e in rec["events"]), "| relays:", rec["kills"])
+            print("session ended:", rec["status"], "| hosts file after:", snap.get("hosts", (None,))[0],
+                  "| directory:", sorted(snap))
+            print("verdict:", bad or None)
+            return bool(bad)
         print("nothing replayable in", r.get("kind"))
         return False
     finally:
